@@ -464,7 +464,7 @@ func (c *Ctx) execInstr(fr *Frame, ins ssa.Instruction, st *State, reach string)
 			s := c.sorts.Of(xt)
 			c.useUnbox(s)
 			c.assume(reach, fmt.Sprintf("(= (%s %s) %s)", unboxName(s), ref, c.term(v)))
-			fr.vals[x] = Val{T: ref, Typ: x.Type()}
+			fr.vals[x] = Val{T: ref, Typ: x.Type(), Boxed: xt}
 		}
 	case *ssa.ChangeInterface:
 		v := c.operand(fr, x.X, st)
